@@ -12,7 +12,7 @@ LEVEL_TEXT = (
     'created inside the per-thread iteration; recursion continues on the branch copies). The iff - '
     'that the search accepts exactly the linearizable histories - is NOT decided.')
 
-FLOORS = {'C08-R1': 9, 'C08-R3': 10}
+FLOORS = {'C08-R1': 9, 'C08-R3': 10, 'C08-R4': 1}
 
 
 def run(ctx):
@@ -24,3 +24,7 @@ def run(ctx):
         T.r1_sticky(ctx, F, T.LIN, 'C08-R1')
     with ctx.rule('C08-R3', T.LIN):
         T.search_skeleton(ctx, F, T.LIN, 'C08-R3', lin=True)
+    ctx.doc('C08-R4', 'the recursive search shares no mutable state between sibling branches, or its memo keys '
+                      'depend on every input (object state, remaining history, in-flight operations)')
+    with ctx.rule('C08-R4', T.LIN):
+        T.search_is_pure_or_memo_complete(ctx, F, T.LIN, 'C08-R4')
